@@ -10,7 +10,7 @@ import (
 	"fmt"
 	"sort"
 	"strings"
-		"time"
+	"time"
 
 	"github.com/glowlabs-org/gca-backend/glow"
 
@@ -30,6 +30,7 @@ const c19Rate = 1000 * time.Nanosecond
 //     one window (max A - min B < rate);
 //   - starved: a refused call for which fewer than limit admitted calls could
 //     possibly lie in its preceding window (A_j > B-rate and B_j <= A).
+//
 // For sequential histories B == A and the judgement is exact.
 func rlJudge(limit int, rate time.Duration, calls []rlCall) (sig, what string) {
 	for i, c := range calls {
@@ -104,8 +105,8 @@ func c19SeqExec(run *ev.Run, limit int, hist []string) (string, bool) {
 // ---- concurrent scenario ----
 
 type c19Arg struct {
-	Limit   int `json:"limit"`
-	Callers int `json:"callers"`
+	Limit   int     `json:"limit"`
+	Callers int     `json:"callers"`
 	Ticks   []int64 `json:"ticks"` // clock thread advances
 }
 
